@@ -218,7 +218,7 @@ func TestSim(t *testing.T) {
 	// WaitGroups of the bubble). A goroutine of the system under test stuck on anything else (a mutex,
 	// a spin) would hang synctest.Wait for good. The watchdog ends the worker, records the run as a
 	// hang, and the orchestrator restarts the worker behind it.
-	runTimeout := time.Duration(envInt("VERIF_RUN_TIMEOUT_S", 150)) * time.Second
+	runTimeout := time.Duration(envInt("VERIF_RUN_TIMEOUT_S", 600)) * time.Second
 	var runStartNs atomic.Int64
 	stopWatch := make(chan struct{})
 	defer close(stopWatch)
@@ -239,7 +239,9 @@ func TestSim(t *testing.T) {
 					Attrs:  map[string]string{"kind": "no_progress_in_real_time"},
 					Detail: fmt.Sprintf("run %d made no progress for %v of real time: a goroutine of the system under test is stuck on something that is not a durable block (mutex, spin), or the run is unboundedly long", curRun, runTimeout)}
 				if r != nil {
+					r.mu.Lock() // the run is still going on (that is the point): its trace is being appended to
 					res.Trace = append([]string{}, r.lines...)
+					r.mu.Unlock()
 					res.Tape = r.Tape.Recorded()
 					res.Detail += "; last trace lines: " + strings.Join(truncateListTail(res.Trace, 6), " | ")
 				}
@@ -440,7 +442,7 @@ func doReplay(t *testing.T, path string, known []KnownFinding) {
 	}
 	if rf.Oracle == "hang" {
 		go func() {
-			time.Sleep(time.Duration(envInt("VERIF_RUN_TIMEOUT_S", 150)) * time.Second)
+			time.Sleep(time.Duration(envInt("VERIF_RUN_TIMEOUT_S", 600)) * time.Second)
 			fmt.Printf("REPLAY verdict=violation oracle=hang trace_hash=hang identical=true\n")
 			fmt.Printf("VIOLATION property=%s replay=%s\n", rf.Property, path)
 			os.Exit(1)
